@@ -5,6 +5,7 @@ every component slice handed to the string constructors has a non-negative lengt
 and no local (the protocol / service lookup results) is read on a path on which it was never assigned, whatever
 the lookups return (found / not found are both explored).  Component exactness and the round trip are not decided."""
 from .. import facts, expr as X
+from .. import nullness, flow
 from ..facts import walk
 from ..report import Check
 from ..cap import Cap
@@ -35,39 +36,90 @@ def check_unparse(chk, prog):
             if b.get("k") == "ref" and b.get("rk") == "param" and b.get("pi") == 0:
                 return s_["n"]
         return None
+    u_ = parse.unit
+    from ..listrules import unit_closure
+    from .. import classinfo
+    urlrec = classinfo.rec_of_param(unparse, 0)
     stored = set()
-    for x in walk(parse.body):
+    # parse and the static helpers it is split into: every store of a fresh object into a field of the URL
+    for g in unit_closure(parse, stop=r"^$"):
+        for j, p_ in enumerate(g.params):
+            if classinfo.rec_of_param(g, j) != urlrec:
+                continue
+            for x in walk(g.body):
+                if x.get("k") == "assign" and x.get("op") == "=":
+                    f_ = self_field(x["ch"][0], g) if j == 0 else None
+                    if f_ is None:
+                        l_ = X.strip(x["ch"][0])
+                        if l_.get("k") == "member" and l_.get("arrow") and X.strip(l_["ch"][0]).get("d") == p_["d"]:
+                            f_ = l_["n"]
+                    if f_ is not None and not X.is_null_const(x["ch"][1]):
+                        stored.add(f_)
+    # locals of unparse that stand for the presence of a component (have_host = !ISNULL(self->host))
+    local_fields = {}
+    for x in walk(unparse.body):
+        pairs = []
         if x.get("k") == "assign" and x.get("op") == "=":
-            f_ = self_field(x["ch"][0], parse)
-            if f_ is not None and not X.is_null_const(x["ch"][1]):
-                stored.add(f_)
+            l_ = X.strip(x["ch"][0])
+            if l_.get("k") == "ref" and l_.get("rk") == "local":
+                pairs.append((l_["d"], x["ch"][1]))
+        if x.get("k") == "decl":
+            for dcl in x.get("decls", ()):
+                if dcl.get("init") is not None:
+                    pairs.append((dcl["d"], dcl["init"]))
+        for d_, r_ in pairs:
+            for y in walk(r_):
+                g_ = self_field(y, unparse)
+                if g_ is not None and g_ in stored:
+                    local_fields.setdefault(d_, set()).add(g_)
     emitted = {}
     for c in X.calls_in(unparse.body):
-        if (X.callee_name(c) or "") in ("spif_str_append", "spif_str_append_from_ptr"):
-            for a in c["ch"][2:]:
+        cn_ = X.callee_name(c) or ""
+        if cn_ in ("spif_str_append", "spif_str_append_from_ptr") or (cn_ in u_.functions and u_.functions[cn_].static and any(
+                (X.callee_name(c2) or "").startswith("spif_str_append") for c2 in X.calls_in(u_.functions[cn_].body))):
+            for a in c["ch"][1:]:
                 for y in walk(a):
                     f_ = self_field(y, unparse)
-                    if f_ is not None:
+                    if f_ is not None and f_ in stored:
                         emitted.setdefault(f_, []).append(c)
     chk.count("url_components_stored_by_parse", len(stored), floor=7)
     for f_ in sorted(stored):
         chk.ob("W1", unparse.name, "emits:" + f_, f_ in emitted, loc=unparse.loc(unparse.body),
                detail="spif_url_parse stores the component `%s` but spif_url_unparse never emits it: recomposition loses the component" % f_,
                proof="an append of self->%s exists" % f_)
-    for f_, calls in sorted(emitted.items()):
+    # W2 as a must-analysis: on every path through unparse on which component F (and the component the grammar attaches it
+    # to) is present, an emission of F is passed - whatever the other components are.  Path-sensitive in the nullness facts,
+    # so it does not depend on how the tests are nested or which locals cache them.
+    cfg = nullness.prepared_cfg(unparse, NORETURN)
+    selfp = "d%d" % unparse.params[0]["d"]
+    emit_ids = {}
+    for f_, calls in emitted.items():
         for c in calls:
-            others = set()
-            for a in unparse.ancestors(c):
-                if a.get("k") == "if":
-                    for y in walk(a["cond"]):
-                        g = self_field(y, unparse)
-                        if g is not None:
-                            others.add(g)
-            bad = sorted(others - {f_} - COUPLED.get(f_, set()))
-            chk.ob("W2", unparse.name, "emission-control:" + f_, not bad, loc=unparse.loc(c),
-                   detail="spif_url_unparse emits `%s` only when `%s` is present too: a URL that has %s but no %s loses it on recomposition "
-                          "(the grammar attaches only passwd to user and port to host)" % (f_, ", ".join(bad), f_, ", ".join(bad)),
-                   proof="controlled by the presence of %s only" % " / ".join([f_] + sorted(COUPLED.get(f_, ()))))
+            emit_ids.setdefault(c["i"], set()).add(f_)
+    for f_ in sorted(stored):
+        if f_ not in emitted:
+            continue
+        seed = {("nn", selfp), ("nn", "%s->%s" % (selfp, f_))}
+        for g_ in COUPLED.get(f_, ()):
+            seed.add(("nn", "%s->%s" % (selfp, g_)))
+
+        def tr(state, x, blk, f_=f_):
+            st = nullness.transfer(state, x, blk)
+            if x["i"] in emit_ids and f_ in emit_ids[x["i"]]:
+                st = frozenset(st) | {("emit", f_)}
+            return st
+        rets = []
+
+        def vis(state, x, blk, f_=f_):
+            if x.get("k") == "return" and x.get("val") is not None and X.const_val(x["val"]) not in (0,):
+                rets.append((x, ("emit", f_) in state))
+        flow.forward(cfg, frozenset(seed), tr, refine=nullness.refine, visit=vis)
+        bad = [x for x, ok in rets if not ok]
+        chk.ob("W2", unparse.name, "emitted-when-present:" + f_, bool(rets) and not bad, loc=unparse.loc(bad[0]) if bad else unparse.loc(unparse.body),
+               detail="spif_url_unparse has a path on which `%s` is present%s but is not emitted - its emission hangs on another component "
+                      "being there: a URL with %s and without that component loses it on recomposition" % (
+                          f_, (" (with " + ", ".join(sorted(COUPLED[f_])) + ")") if f_ in COUPLED else "", f_),
+               proof="every path with %s present passes an append of it" % f_)
 
 
 def run(tier="quick"):
